@@ -41,6 +41,15 @@ add_key(x, x)
 trim(w)
 uppercase(w)
 cast(n, "str")
+replace(w, "[B-Z]+", "y")
+strfmt(sf, "%s-%v", w, n)
+sql_cover(q)
+default_time(ts, "+8")
+datetime(dt, "ms", "RFC3339")
+xml(xm, "/a/b", xv)
+url_decode(u)
+j = load_json(js)
+add_key(j0, j[0])
 rename(word, w)
 set_tag(word)
 `,
@@ -124,7 +133,8 @@ func parseRender(name, src string) string {
 // canonical result of one run of the shared main script on a private point
 func sharedRun(sc *plruntime.Script, msg string, sig plruntime.Signal) string {
 	pt := input.GetPoint()
-	input.InitPt(pt, "m", map[string]string{"t": "v"}, map[string]any{"message": msg, "f": int64(1)}, fixedTime)
+	input.InitPt(pt, "m", map[string]string{"t": "v"}, map[string]any{"message": msg, "f": int64(1), "q": "select * from t where id = 42", "ts": "2021-03-04 05:06:07",
+		"dt": int64(1614834367123), "xm": "<a><b>v</b></a>", "u": "a%20b", "js": "[1, 2]"}, fixedTime)
 	err := sc.Run(pt, sig)
 	s := fmt.Sprintf("err=%v fields=%s tags=%s", errStr(err), showVal(map[string]any(pt.Fields)), fmt.Sprint(pt.Tags))
 	input.PutPoint(pt)
@@ -168,6 +178,14 @@ func raceRun(args []string) (any, error) {
 	var loaded []loadedSet
 	for r := 0; r < *rounds; r++ {
 		g := 2 + rng.Intn(*maxG-1)
+		// every second round runs a freshly loaded copy of the shared script: its first runs (cold call sites, lazily
+		// initialised annotations) then happen concurrently
+		scR := sc
+		if r%2 == 1 {
+			if scR, err = loadShared(); err != nil {
+				return nil, err
+			}
+		}
 		var wg sync.WaitGroup
 		var mu sync.Mutex
 		start := make(chan struct{})
@@ -199,7 +217,7 @@ func raceRun(args []string) (any, error) {
 					mu.Unlock()
 					return
 				}
-				got := sharedRun(sc, msg, nil)
+				got := sharedRun(scR, msg, nil)
 				mu.Lock()
 				runs++
 				if got != want[msg] {
